@@ -1062,7 +1062,26 @@ where
                     continue;
                 }
 
-                _ => (),
+                // Sync: time to run what we have buffered.
+                'S' => (),
+
+                // CopyData, CopyDone, CopyFail and Flush outside of a transaction: the server
+                // ignores them, don't take a server connection for them.
+                'd' | 'c' | 'f' | 'H' => continue,
+
+                // Nothing else can start a transaction. Checking out a server for it would
+                // keep that server away from other clients for as long as this client stays.
+                code => {
+                    error_response_terminal(
+                        &mut self.write,
+                        &format!("invalid frontend message type {}", code as u32),
+                    )
+                    .await?;
+                    return Err(Error::ProtocolSyncError(format!(
+                        "Unexpected message type {} from client {}",
+                        code as u32, client_identifier
+                    )));
+                }
             }
 
             // Check on plugin results.
